@@ -13,14 +13,14 @@ var c09SyncState = regexp.MustCompile(`server\.\(\*Dataset\)\.(StartFullSync|Sta
 
 func init() {
 	plans["C09"] = Plan{Prop: "C09", Level: "exploration",
-		Rule: "seeded histories (9-20 ops; the first 1 (quick) / 4 (thorough) cases of every plain child are large-dataset cases: 1100-2300 entities, a sync that re-sends a prefix / a suffix / all but one page of 1000 / a random 90% / a prefix without its head; of the others 30% open with one of 10 directed orders, then a random walk) over one dataset of HTTP start/batch/end requests (matching, foreign, missing sync id — also id-less starts and ends) through the real echo router and handler, POST /transactions writes into the dataset (real handler, Store.ExecuteTransaction), " +
+		Rule: "seeded histories (9-20 ops; the first 1 (quick) / 4 (thorough) cases of every plain child are large-dataset cases (the next 2 / 10, in race children 1 / 3, are pipeline cases: a real fullsync job - scheduler-built job object, DatasetSource -> JavaScript transform that drops ids -> DatasetSink, batchSize 1-3 - into a sink that already holds most of the source plus stale entities; in 70% the filter empties one complete source page that is not the last): 1100-2300 entities, a sync that re-sends a prefix / a suffix / all but one page of 1000 / a random 90% / a prefix without its head; of the others 30% open with one of 10 directed orders, then a random walk) over one dataset of HTTP start/batch/end requests (matching, foreign, missing sync id — also id-less starts and ends) through the real echo router and handler, POST /transactions writes into the dataset (real handler, Store.ExecuteTransaction), " +
 			"end requests whose request context is cancelled before the request or at ds.completeFullSync.begin (client gone / timed out; HTTP and job), sleeps of 3.2 lease timeouts after such a failed end, " +
 			"job ends during which (from the hook point ds.completeFullSync.begin, on the end's goroutine) another HTTP or job sync is started, " +
 			"job-style StartFullSync/StoreEntities/CompleteFullSync calls (what jobs.datasetSink does), header-less writes, writes of an incremental job, sleeps past the lease (100-200 ms) " +
 			"and groups of concurrent requests; 60% of the cases stretch ds.lease.afterDone / web.fullsync.beforeRelease / ds.completeFullSync.begin. " +
 			"The feed is read before and after every op and after a final sleep; verdicts key on status codes and feed contents only. " +
 			"Distinct = hash of (lease, hook schedule, history). Non-trivial (measured at run time) = at least one sync completed (end answered 200 / job end returned nil for the current sync) " +
-			"AND at least one of: a foreign-id batch/end was issued during a sync, a sync was superseded by another start, a lease expiry was observed (end answered 410 or the started flag dropped across a sleep)",
+			"AND at least one of: a foreign-id batch/end was issued during a sync, a sync was superseded by another start, a lease expiry was observed (end answered 410 or the started flag dropped across a sleep); a pipeline case is non-trivial when its job run succeeded over more than one source page with a filter that drops at least one source entity",
 		Assumptions: []string{
 			"lease expiry is a timing fact: it is never predicted, only read off the responses (410) — a sync that the hub keeps alive longer than its lease is not a violation",
 			"an end request answered 410 may or may not have stored its body (counted, not demanded); it must not append tombstones",
@@ -30,6 +30,7 @@ func init() {
 			"an HTTP end request can only be the end of an HTTP sync: answered 200 while a job-driven sync is the current one it is a violation (HEAD answers 410)",
 			"an HTTP sync whose own end request was refused with 5xx is not completed; a retry that the hub answers 200 is judged by the completion rule. Once the HISTORY has ordered sleeps of >= 3 lease timeouts after the refusal with no accepted request of that sync in between, the sync must be dead (a non-matching write answered 409 or a late end answered 200 is a violation). This is the only verdict that uses a duration, and it is the requested sleep of the history (a lower bound of the real wait), never a measured time",
 			"a start issued from inside a job's end request: either the end completes ITS sync (answered nil: judged against the sync that was current before the start, the start's body may get at most one tombstone) or the start supersedes it (error / no effect); in both cases the new sync is the current one afterwards and is judged by its own batches and end",
+			"a fullsync job recorded as successful is judged with 'written since the start' = the ids of its SOURCE that its transform lets through (source + filter, not what the run happened to write): they must be live with the source content, every other live sink entity gets exactly one tombstone. Source entities have one version each and none is deleted",
 			"a transaction carries no sync id; answered 200 it is a write into the dataset and counts as written since the start of whatever sync is running",
 			"the body of a refused (410/5xx) end request issued inside another sync may or may not have been stored: its entities may get at most one tombstone when that sync completes",
 		},
@@ -38,13 +39,13 @@ func init() {
 			if tier == "thorough" {
 				n, c, rn, rc = 16, 300, 8, 100
 			}
-			bulk := "1"
+			bulk, pipe, rpipe := "1", "2", "1"
 			if tier == "thorough" {
-				bulk = "4"
+				bulk, pipe, rpipe = "4", "10", "3"
 			}
 			return []Stage{
-				{Name: "seq", Scenario: "c09fullsync", Args: "par=12,hooks=60,httpsup=1,bulk=" + bulk, Children: n, Cases: c, Timeout: 14 * time.Minute},
-				{Name: "race", Scenario: "c09fullsync", Args: "par=60,hooks=50,race=1,httpsup=1", Children: rn, Cases: rc, Race: true, Timeout: 14 * time.Minute},
+				{Name: "seq", Scenario: "c09fullsync", Args: "par=12,hooks=60,httpsup=1,pipe=" + pipe + ",bulk=" + bulk, Children: n, Cases: c, Timeout: 14 * time.Minute},
+				{Name: "race", Scenario: "c09fullsync", Args: "par=60,hooks=50,race=1,httpsup=1,pipe=" + rpipe, Children: rn, Cases: rc, Race: true, Timeout: 14 * time.Minute},
 			}
 		},
 		Post: c09Post,
